@@ -43,7 +43,9 @@ def native_concat(values: t.Iterable[t.Any]) -> t.Any | None:
             # parse the string ourselves without removing leading spaces/tabs.
             parse(raw, mode="eval")
         )
-    except (ValueError, SyntaxError, MemoryError):
+    except (ValueError, SyntaxError, MemoryError, TypeError, RecursionError):
+        # TypeError: text that parses but has no literal value, for
+        # example a dict display with an unhashable key.
         return raw
 
 
